@@ -164,7 +164,7 @@ def mask_date(data):
 def run(ctx):
     rng = ctx.rng
     thorough = ctx.tier == 'thorough'
-    n = 2500 if thorough else 220
+    n = 2500 if thorough else 220 * ctx.scale
     cases = []
     if ctx.replay:
         cases = [(ctx.replay['case']['line'], None)]
